@@ -15,7 +15,7 @@ CONSTANTS Keys, Vals, MaxOps, DoExport
 VARIABLES m, pairs, hist, init
 
 vars == <<m, pairs, hist, init>>
-view == <<m, pairs, init>>
+view == <<m, pairs, init, Len(hist)>>   \* depth in the view: the bound is then exact under parallel BFS
 
 SetOps == {[op |-> "set", k |-> k, v |-> v] : k \in Keys, v \in Vals}
 RepOps == {[op |-> "replace", old |-> o, new |-> n, v |-> v] : o \in Keys, n \in Keys, v \in Vals}
